@@ -65,5 +65,19 @@ def homToAffine (x y z : F) : WPoint F :=
   let zi := z⁻¹
   some (x * zi, y * zi)
 
+/-- Equality test of two Jacobian triples as `g1.rs` / `g2.rs` `ct_eq` performs it:
+`x₁z₂² = x₂z₁²  ∧  y₁z₂³ = y₂z₁³`, identities (`z = 0`) compared separately. -/
+def jacCtEq (x1 y1 z1 x2 y2 z2 : F) : Bool :=
+  let id1 := decide (z1 = 0)
+  let id2 := decide (z2 = 0)
+  (id1 && id2) || (!id1 && !id2 &&
+    decide (x1 * (z2 * z2) = x2 * (z1 * z1)) && decide (y1 * (z2 * z2) * z2 = y2 * (z1 * z1) * z1))
+
+/-- Equality test of two homogeneous triples as `derive/curve.rs` `ct_eq` performs it. -/
+def homCtEq (x1 y1 z1 x2 y2 z2 : F) : Bool :=
+  let id1 := decide (z1 = 0)
+  let id2 := decide (z2 = 0)
+  (id1 && id2) || (!id1 && !id2 && decide (x1 * z2 = x2 * z1) && decide (y1 * z2 = y2 * z1))
+
 end
 end MidnightZK.C11
